@@ -154,7 +154,33 @@ def quote_guards(prog, rep):
                     PV = x.targets[0].id
         quote_vars = [x for x in walk_own(fi.node) if isinstance(x, (ast.Assign, ast.AnnAssign)) and getattr(x, "value", None) is not None and ((isinstance(x.value, ast.Name) and x.value.id in ("char", "c", "ch")) or isinstance(x.value, ast.Constant) and x.value.value is None) and "quote" in norm(x.targets[0] if isinstance(x, ast.Assign) else x.target).lower()]
         if DV is not None and (SQ_ is None or DQ_ is None) and quote_vars:
-            rep.undecided("QUOTES", fi.short, "quote state", "the scanner steps a bracket depth but keeps its quote state in some other form than two flags toggled on ' and \"", fi.loc())
+            # the quote state is kept in some other form than two flags: decide the loop over a finite abstraction of characters
+            # and variable values against the reference automaton (awstatic/scanfsm.py)
+            from ..scanfsm import Undecided as _Und, analyse as _analyse
+
+            blps = [l for l in walk_own(fi.node) if isinstance(l, ast.For) and any(isinstance(x, (ast.AugAssign, ast.Assign)) and norm(x.targets[0] if isinstance(x, ast.Assign) else x.target) == DV for x in ast.walk(l))]
+            if len(blps) != 1:
+                rep.undecided("QUOTES", fi.short, "bracket loop", f"{len(blps)} loops touch the depth counter", fi.loc())
+                continue
+            init_env = {}
+            for st_ in fi.node.body:
+                if st_ is blps[0]:
+                    break
+                if isinstance(st_, (ast.Assign, ast.AnnAssign)) and getattr(st_, "value", None) is not None and isinstance(st_.value, ast.Constant):
+                    tg_ = st_.targets[0] if isinstance(st_, ast.Assign) and len(st_.targets) == 1 else getattr(st_, "target", None)
+                    if isinstance(tg_, ast.Name):
+                        init_env[tg_.id] = st_.value.value
+            oc = {"QFunction": ("(", ")"), "QDict": ("{", "}"), "QList": ("[", "]")}[cname]
+            try:
+                bad_, n_states, tracked_ = _analyse(blps[0], init_env, DV, oc[0], oc[1])
+            except _Und as ex_:
+                rep.undecided("QUOTES", fi.short, "quote state", f"the scanner keeps its quote state in some other form than two flags, and its loop body leaves the fragment the finite abstraction interprets ({ex_})", fi.loc())
+                continue
+            for st0, cls_, pv_, got_, want_ in bad_[:4]:
+                rep.violation("QUOTES", fi.short, f"state {st0} on {cls_} after {pv_}"[:90], f"with the variables at {st0}, reading a character of class {cls_} (previous character: {pv_}) the scanner does `{got_}` where the rule of the language is `{want_}`: a quote inside the other kind of string / after a backslash changes the state, or a bracket inside a string literal is counted", fi.loc(blps[0]))
+            if not bad_:
+                rep.ok("QUOTES", fi.short, "quote state (finite abstraction)", f"{n_states} reachable value combinations of {tracked_} x 9 character classes agree with the reference automaton", fi.loc(blps[0]))
+            n += 2
             continue
         DV, SQ_, DQ_, PV = DV or "to_consume", SQ_ or "single_quote", DQ_ or "double_quote", PV or "prev_char"
         loops = [l for l in walk_own(fi.node) if isinstance(l, ast.For) and any(isinstance(x, (ast.AugAssign, ast.Assign)) and norm(x.targets[0] if isinstance(x, ast.Assign) else x.target) == DV for x in ast.walk(l))]
@@ -696,6 +722,28 @@ def registry_rule(prog, rep):
     listed = [norm(x) for x in qt.elts] if isinstance(qt, (ast.List, ast.Tuple)) else []
     subs = sorted(c.name for c in token_classes(prog))
     rep.check(sorted(listed) == subs and len(listed) == len(set(listed)), "REGISTRY", "qtypes", "exhaustive token table", f"{listed}", f"qtypes lists {listed} but the QToken subclasses are {subs}: a token kind can never be recognised (or is tried twice)", f"{mi.relpath}:{getattr(qt, 'lineno', 0)}")
+    # a scanner that is tried before the name scanners and accepts text that begins like a name takes the front of every
+    # identifier that starts that way (first match wins): variables named `true_events`, `Nonesuch`, `infile` stop parsing
+    KNOWN_TOKENS = ("QString", "QInteger", "QFunction", "QDict", "QList", "QVariable")
+    for pos_, nm_ in enumerate(listed):
+        if nm_ in KNOWN_TOKENS:
+            continue
+        before_names = any(listed.index(k_) > pos_ for k_ in ("QVariable", "QFunction") if k_ in listed)
+        ck_ = prog.func(f"{nm_}.check") if f"{nm_}.check" in getattr(prog, "by_short", {}) else None
+        if ck_ is None:
+            cands_ = [f_ for f_ in prog.funcs.values() if f_.cls is not None and f_.cls.name == nm_ and f_.name == "check"]
+            ck_ = cands_[0] if cands_ else None
+        wordy = False
+        if ck_ is not None:
+            cls_ = ck_.cls
+            texts_ = [x.value for x in ast.walk(cls_.node) if isinstance(x, ast.Constant) and isinstance(x.value, str) and x.value[:1].isalpha()]
+            wordy = any(isinstance(x, ast.Call) and isinstance(x.func, ast.Attribute) and x.func.attr in ("startswith", "isalpha", "isidentifier", "isalnum") for x in ast.walk(ck_.node)) and (bool(texts_) or any(isinstance(x, ast.Attribute) and x.attr in ("isalpha", "isidentifier", "isalnum") for x in ast.walk(ck_.node)))
+            boundary = any(isinstance(x, ast.Call) and isinstance(x.func, ast.Attribute) and x.func.attr in ("isalnum", "isidentifier", "isalpha") for x in ast.walk(ck_.node)) and any(isinstance(x, ast.UnaryOp) and isinstance(x.op, ast.Not) for x in ast.walk(ck_.node))
+            wordy = wordy and not boundary
+        if before_names and wordy:
+            rep.violation("REGISTRY", "qtypes", f"{nm_} ahead of the name scanners", f"`{nm_}` is tried before QVariable / QFunction and its scanner accepts text that begins like a name (literal words matched with startswith, no test that the word ends there): the first matching scanner wins, so every variable or function whose name begins with one of those words is cut in two and the statement no longer parses (and those names can no longer be assigned)", f"{mi.relpath}:{getattr(qt, 'lineno', 0)}")
+        else:
+            rep.undecided("REGISTRY", "qtypes", f"token class {nm_}", "a token class the rules do not know: its scanner is not related to the others'", f"{mi.relpath}:{getattr(qt, 'lineno', 0)}")
     for c in token_classes(prog):
         miss = [m for m in ("check", "parse", "interpret") if prog.method(c, m) is None or prog.method(c, m).cls.name == "QToken"]
         rep.check(not miss, "REGISTRY", c.name, "defines check/parse/interpret", "", f"{c.name} does not define {miss}: the abstract method raises NotImplementedError", f"{mi.relpath}:{c.node.lineno}")
